@@ -11,6 +11,7 @@
 package main
 
 import (
+	"fmt"
 	"io"
 	"log/slog"
 	"math"
@@ -92,17 +93,18 @@ var nolog = slog.New(slog.NewTextHandler(io.Discard, nil))
 
 // session drives one real Pll
 type session struct {
-	clk       *fakeClock
-	pll       *adjustments.Pll
-	prev      time.Time // reading of the last Do that returned normally
-	havePrev  bool
-	args      []string
-	outs      []string
-	tags      map[string]bool
-	nEv       int
-	lastStep  bool // the last Do called Step
-	lastPanic bool
-	kind      string // case kind, "pll.history" unless set
+	clk         *fakeClock
+	pll         *adjustments.Pll
+	prev        time.Time // reading of the last Do that returned normally
+	havePrev    bool
+	args        []string
+	outs        []string
+	tags        map[string]bool
+	nEv         int
+	lastStep    bool // the last Do called Step
+	lastStepOff int64
+	lastPanic   bool
+	kind        string // case kind, "pll.history" unless set
 }
 
 func newSession() *session {
@@ -134,6 +136,7 @@ func (s *session) do(u update) {
 		if strings.HasPrefix(e, "[1 ") {
 			s.tags["step"] = true
 			s.lastStep = true
+			s.lastStepOff = lib.ParseI(strings.TrimSuffix(strings.TrimPrefix(e, "[1 "), "]"))
 		} else {
 			s.tags["adjust"] = true
 		}
@@ -161,7 +164,7 @@ func (s *session) emit(extra ...string) {
 		s.tags["nt"] = true
 	}
 	var ts []string
-	for _, t := range []string{"nt", "step", "adjust", "panic", "epochchg", "nonmono", "biggap", "minint", "pow", "clampgap", "zerodt", "boundary", "restart", "long", "extreme", "large", "hours", "days", "ns1", "clampedge"} {
+	for _, t := range []string{"nt", "step", "adjust", "panic", "epochchg", "nonmono", "biggap", "minint", "pow", "clampgap", "zerodt", "boundary", "restart", "long", "extreme", "large", "hours", "days", "ns1", "clampedge", "jump", "backjump", "len600", "len5000", "midgap"} {
 		if s.tags[t] {
 			ts = append(ts, t)
 		}
@@ -226,7 +229,9 @@ func genOffset(r *lib.Rng) int64 {
 
 // gaps between updates in tracking
 func genGap(r *lib.Rng) int64 {
-	switch r.Intn(12) {
+	switch r.Intn(13) {
+	case 12:
+		return r.Range(400, 3600)*second + lib.Pick(r, int64(0), 0, 1, -1, r.Range(0, second))
 	case 0:
 		return 0
 	case 1:
@@ -331,6 +336,9 @@ func history(r *lib.Rng, flavour int, n int) {
 			default:
 				gap = genGap(r)
 				atCapture := false
+				if gap > 400*second && gap < 3600*second {
+					s.tags["midgap"] = true
+				}
 				if elapsed() <= 300*second && r.Intn(5) == 0 {
 					// around captureTime (300 s after tracking began), with a weight that uses the stored gains
 					gap = aroundThreshold(r, elapsed(), 300*second)
@@ -360,17 +368,13 @@ func history(r *lib.Rng, flavour int, n int) {
 			// rare: very large gaps, and readings that go backwards
 			switch {
 			case flavour == 5 && r.Intn(6) == 0:
-				gap = lib.Pick(r, int64(4294967296)*second-1, 4294967296*second, 4294967295*second, 4294967295*second+1,
-					9223372036*second, 9223372036*second+854775807, math.MaxInt64, r.Range(1<<40, math.MaxInt64), 1<<53, 1<<53+1)
+				// up to the last gap for which int64(ceil(dt)*1e9) does not wrap (beyond: kind pll.longgap)
+				gap = lib.Pick(r, int64(4294967296)*second-1, 4294967296*second, 4294967295*second, 4294967295*second+1, 4294967296*second+1,
+					9223372036*second, 9223372035*second+999999999, 9223372035*second+1, r.Range(1<<40, 9223372036*second), 1<<53, 1<<53+1, 5000000000*second)
 				s.tags["biggap"] = true
 			case flavour == 6 && r.Intn(5) == 0:
 				gap = -lib.Pick(r, int64(1), second, r.Range(1, 10*second), r.Range(1, 400*second))
 				s.tags["nonmono"] = true
-			}
-			if flavour == 5 && r.Intn(25) == 0 {
-				// two saturating gaps in a row: difference beyond the int64 range
-				now = now.add(math.MaxInt64)
-				s.tags["biggap"] = true
 			}
 			now = now.add(gap)
 			if now.sec > 1<<40 {
@@ -385,9 +389,13 @@ func history(r *lib.Rng, flavour int, n int) {
 		}
 		// epoch: realistic bump after the controller's own step, external bumps
 		bumped := false
+		jump := int64(0)
 		if s.lastStep && realistic {
 			epoch++
 			bumped = true
+			if r.Intn(2) == 0 {
+				jump = s.lastStepOff // the step moved the clock, backwards for a negative offset
+			}
 		}
 		if pEpoch > 0 && r.Intn(100) < pEpoch && k > 0 {
 			switch r.Intn(4) {
@@ -402,6 +410,23 @@ func history(r *lib.Rng, flavour int, n int) {
 			s.tags["epochchg"] = true
 			if phase >= 1 {
 				s.tags["restart"] = true
+			}
+			if r.Intn(3) == 0 {
+				// somebody stepped the clock: the reading jumps, in either direction
+				jump = lib.Pick(r, int64(1), -1) * lib.Pick(r, r.Range(1, 10*second), r.Range(1, 400*second), r.Range(second, 1<<55), math.MaxInt64)
+			}
+		}
+		if bumped && jump != 0 {
+			now = now.add(jump)
+			if now.sec > 1<<40 {
+				now.sec = 1 << 40
+			}
+			if now.sec < -(1 << 40) {
+				now.sec = -(1 << 40)
+			}
+			s.tags["jump"] = true
+			if jump < 0 {
+				s.tags["backjump"] = true
 			}
 		}
 		if off == math.MinInt64 {
@@ -439,6 +464,12 @@ func history(r *lib.Rng, flavour int, n int) {
 	}
 	if n > 40 {
 		s.tags["long"] = true
+	}
+	if n >= 600 {
+		s.tags["len600"] = true
+	}
+	if n >= 5000 {
+		s.tags["len5000"] = true
 	}
 	s.emit()
 }
@@ -538,6 +569,29 @@ func largeHistory(r *lib.Rng, n int) {
 	s.emit()
 }
 
+// histories whose last gap exceeds the int64 wrap (9223372036 s): the known
+// finding adjust-negative-duration-292y.  Random start-up and tracking within
+// the first 11 s, then the update at reading 9223372047 s of the finding.
+func longgapHistory(r *lib.Rng) {
+	s := newSession()
+	s.kind = "pll.longgap"
+	s.tags["biggap"] = true
+	now := reading{0, r.Range(0, second/2)}
+	ep := uint64(r.Intn(3))
+	small := func() int64 { return r.Range(-900000, 900000) }
+	s.do(update{now, ep, genOffset(r), genWeight(r, 0)})
+	now = now.add(2*second + r.Range(1, second))
+	s.do(update{now, ep, small(), genWeight(r, 1)})
+	now = now.add(6*second + r.Range(1, second))
+	s.do(update{now, ep, genOffset(r), genWeight(r, 0)})
+	for k := r.Intn(4); k > 0; k-- {
+		now = now.add(r.Range(0, 300000000))
+		s.do(update{now, ep, genOffset(r), genWeight(r, 0)})
+	}
+	s.do(update{reading{9223372047, 0}, ep, genOffset(r), genWeight(r, 0)})
+	s.emit("extreme")
+}
+
 // fixed histories that hit the clauses of the property directly
 func scripted() {
 	type st struct {
@@ -629,23 +683,47 @@ func main() {
 	w = lib.NewWriter(a.Out)
 	defer w.Close()
 	if a.Replay != "" {
+		if !pllSafe() {
+			fmt.Println("NOTE pll.go imports golang.org/x/sys/unix or syscall: no history is run")
+			sourceCheck()
+			return
+		}
 		for _, c := range lib.ReplayLines(a.Replay) {
-			if strings.HasPrefix(c[0], "pll.") {
+			if c[0] == "pll.epochsrc" {
+				sourceCheck()
+			} else if strings.HasPrefix(c[0], "pll.") {
 				replay(c)
 			}
 		}
 		return
 	}
+	if !sourceCheck() {
+		// pll.go imports the kernel interface: running Pll.Do could move the machine's clock
+		fmt.Println("NOTE pll.go imports golang.org/x/sys/unix or syscall: no history is run")
+		return
+	}
 	r := lib.NewRng(a.Seed)
 	n := 5000
+	n600, n5000 := 4, 1
 	if a.Tier == "thorough" {
 		n = 60000
+		n600, n5000 = 40, 8
 	}
 	scripted()
+	for i := 0; i < 10; i++ {
+		longgapHistory(r)
+	}
+	// very long histories, every flavour in turn (the seed picks where the turn starts)
+	for i := 0; i < n600; i++ {
+		history(r, (int(a.Seed)+3*i)%8, 600+r.Intn(100))
+	}
+	for i := 0; i < n5000; i++ {
+		history(r, (int(a.Seed)+7+i)%8, 5000+r.Intn(500))
+	}
 	for i := 0; i < n; i++ {
 		flavour := i % 8
 		ln := 6 + r.Intn(30)
-		if i%50 == 0 {
+		if i%51 == 0 {
 			ln = 60 + r.Intn(200)
 		}
 		history(r, flavour, ln)
